@@ -34,6 +34,7 @@ inductive WPc where
   | pushWait (sub : Nat) (fa : Bool)
   | released
   | done
+  | crashed                           -- an exception escaped this worker (the simulation is over)
   deriving Repr, Inhabited, DecidableEq
 
 structure Worker where
@@ -45,6 +46,7 @@ structure Worker where
   inList : Bool := true             -- member of worker_thread_list
   pulledAt : Nat := 0               -- ghost
   timerAt : Option Nat := none      -- ghost: instant at which the processing timer fired
+  has : Bool := true                -- ghost: the worker still holds its item (not yet put / dropped)
   deriving Repr, Inhabited, DecidableEq
 
 structure MPush where
@@ -54,6 +56,18 @@ structure MPush where
   tok : Option Nat := none
   done : Bool := false
   deriving Repr, Inhabited, DecidableEq
+
+/-- total_time_spent_in_states of a machine -/
+structure MTT where
+  setup : Nat := 0
+  idle : Nat := 0
+  aop : Nat := 0      -- ATLEAST_ONE_PROCESSING
+  allb : Nat := 0     -- ALL_ACTIVE_BLOCKED
+  aap : Nat := 0      -- ALL_ACTIVE_PROCESSING
+  aob : Nat := 0      -- ATLEAST_ONE_BLOCKED
+  deriving Repr, Inhabited, DecidableEq
+
+def MTT.toList (m : MTT) : List Nat := [m.setup, m.idle, m.aop, m.allb, m.aap, m.aob]
 
 structure MacState where
   cfg : MacCfg
@@ -67,7 +81,7 @@ structure MacState where
   rrIn : Nat := 0
   rrOut : Nat := 0
   -- statistics
-  tt : List Nat := [0, 0, 0, 0, 0, 0]
+  tt : MTT := {}
   last : Option Nat := none
   rep : Option (Int × Int) := none     -- state_rep (None before the process starts)
   occ : List Nat := []                 -- time_per_work_occupancy
@@ -84,6 +98,10 @@ structure MacState where
   dropped : List Nat := []
   openToks : List Nat := []
   flagged : Bool := false
+  bSlot : Bool := false               -- ghost: the behaviour process holds a worker slot not yet handed to a worker
+  now : Nat := 0                      -- time of the latest accepted activation
+  t0 : Option Nat := none             -- ghost: time at which the behaviour process started
+  tEnd : Option Nat := none           -- ghost: time at which the set-up period ended
   deriving Repr, Inhabited
 
 namespace MacState
@@ -100,11 +118,11 @@ def updRep (s : MacState) (t : Nat) : MacState :=
   match s.rep, s.last with
   | some (p, b), some l =>
     let e := t - l
-    let tt1 := if p = 0 ∧ b = 0 then addAt s.tt 1 e else s.tt
-    let tt2 := if b > 0 ∧ p = 0 then addAt tt1 3 e else tt1
-    let tt3 := if p > 0 then addAt tt2 2 e else tt2
-    let tt4 := if p > 0 ∧ b = 0 then addAt tt3 4 e else tt3
-    let tt5 := if b > 0 then addAt tt4 5 e else tt4
+    let tt1 : MTT := if p = 0 ∧ b = 0 then { s.tt with idle := s.tt.idle + e } else s.tt
+    let tt2 : MTT := if b > 0 ∧ p = 0 then { tt1 with allb := tt1.allb + e } else tt1
+    let tt3 : MTT := if p > 0 then { tt2 with aop := tt2.aop + e } else tt2
+    let tt4 : MTT := if p > 0 ∧ b = 0 then { tt3 with aap := tt3.aap + e } else tt3
+    let tt5 : MTT := if b > 0 then { tt4 with aob := tt4.aob + e } else tt4
     { s with tt := tt5, rep := some s.count, last := some t }
   | _, _ => { s with last := some t }
 
@@ -114,14 +132,19 @@ def occAdd (s : MacState) (t : Nat) : MacState :=
 def occRemove (s : MacState) (t : Nat) : MacState :=
   { s with occ := addAt s.occ s.numWorkers (t - s.lastOcc), numWorkers := s.numWorkers - 1, lastOcc := t }
 
+/-- `reset()`: a constant edge index outside the range of the edge list is rejected -/
+def _root_.FsVerif.MacCfg.badConst (c : MacCfg) : Bool :=
+  (match c.inPol with | .const k => decide (k < 0 ∨ k ≥ c.nin) | _ => false) ||
+  (match c.outPol with | .const k => decide (k < 0 ∨ k ≥ c.nout) | _ => false)
+
 def crashB (s : MacState) (e : Err) (pre : List Call) : MacState × List Call :=
   ({ s with bpc := .dead }, pre ++ [.crash e])
 
 /-- loop top after set-up: `update_state_rep`, request a worker slot -/
 def requestSlot (s : MacState) (t : Nat) : MacState :=
   let s1 := s.updRep t
-  if s1.users < s1.cfg.wc then { s1 with users := s1.users + 1, granted := true, bpc := .slotWait }
-  else { s1 with granted := false, bpc := .slotWait }
+  if s1.users < s1.cfg.wc then { s1 with users := s1.users + 1, granted := true, bSlot := true, bpc := .slotWait }
+  else { s1 with granted := false, bSlot := false, bpc := .slotWait }
 
 def selIdx (pol : Pol) (rr n : Nat) (a : Ans) : Option Int × Nat × List Call :=
   match pol with
@@ -137,7 +160,7 @@ def afterPull (s : MacState) (t : Nat) (it : Nat) (a : Ans) (pre : List Call) : 
   | d :: _ =>
     let w : Worker := { ord := s.nextProc, item := it, delay := d, pulledAt := t }
     let s1 := { s with workers := s.workers ++ [w], nextProc := s.nextProc + 1, pds := s.pds ++ [d],
-                       pulled := s.pulled ++ [it] }
+                       pulled := s.pulled ++ [it], bSlot := false, granted := false }
     let s2 := s1.updRep t
     (s2.requestSlot t, pre ++ [.draw d, .spawn w.ord])
   | [] => ({ s with bpc := .dead, flagged := true }, pre ++ [.bad])
@@ -146,24 +169,23 @@ def behaviour (s : MacState) (t : Nat) (a : Ans) : MacState × List Call :=
   match s.bpc with
   | .start =>
     -- reset(): constant indices are range-checked
-    let badIn : Bool := match s.cfg.inPol with | .const k => decide (k < 0 ∨ k ≥ s.cfg.nin) | _ => false
-    let badOut : Bool := match s.cfg.outPol with | .const k => decide (k < 0 ∨ k ≥ s.cfg.nout) | _ => false
-    if badIn || badOut then ({ s with rep := some (-1, -1), bpc := .dead }, [.crash .assertion])
-    else ({ s with rep := some (-1, -1), bpc := .setupWait }, [])
+    if s.cfg.badConst then ({ s with rep := some (-1, -1), bpc := .dead }, [.crash .assertion])
+    else ({ s with rep := some (-1, -1), bpc := .setupWait, t0 := some t }, [.wait s.cfg.setup])
   | .setupWait =>
-    let s1 := { s with tt := addAt s.tt 0 s.cfg.setup, rep := some (0, 0) }
+    let s1 := { s with tt := { s.tt with setup := s.tt.setup + s.cfg.setup }, rep := some (0, 0), tEnd := some t }
     let s2 := s1.updRep t
     (s2.requestSlot t, [])
   | .slotWait =>
     if !s.granted then ({ s with flagged := true }, [.bad]) else
+    if s.numWorkers ≥ s.occ.length then s.crashB .index [] else      -- time_per_work_occupancy[num_workers]
     let s1 := (s.occAdd t)
     match s.cfg.inPol with
     | .fa =>
       let toks := (List.range s.cfg.nin).map (· + s1.nextTok)
       ({ s1 with granted := false, bpc := .inAny toks, nextTok := s1.nextTok + s.cfg.nin, openToks := s1.openToks ++ toks },
        (List.range s.cfg.nin).map (fun j => .rg j (s1.nextTok + j)))
-    | pol =>
-      let (k?, rr', c0) := selIdx pol s1.rrIn s.cfg.nin a
+    | _ =>
+      let (k?, rr', c0) := selIdx s.cfg.inPol s1.rrIn s.cfg.nin a
       match k? with
       | none => ({ s1 with bpc := .dead, flagged := true }, [.bad])
       | some k =>
@@ -191,16 +213,19 @@ def behaviour (s : MacState) (t : Nat) (a : Ans) : MacState × List Call :=
     | [] => ({ s with flagged := true }, [.bad])
   | .dead => ({ s with flagged := true }, [.bad])
 
-def setWorker (s : MacState) (w : Worker) : MacState :=
-  { s with workers := s.workers.map (fun x => if x.ord = w.ord then w else x) }
+def setWorker (s : MacState) (i : Nat) (w : Worker) : MacState :=
+  { s with workers := s.workers.set i w }
 
 /-- `yield self.worker_thread.release(req)`: the slot is free at once; a queued request of the
     behaviour process is granted when the release event is processed (before anybody else runs) -/
-def release (s : MacState) (w : Worker) : MacState :=
-  let s1 := s.setWorker { w with pc := .released }
-  let s2 := { s1 with users := s1.users - 1 }
-  if s2.bpc = .slotWait ∧ !s2.granted ∧ s2.users < s2.cfg.wc then { s2 with users := s2.users + 1, granted := true }
-  else s2
+def release (s : MacState) (i : Nat) (w : Worker) : MacState :=
+  let s1 := s.setWorker i { w with pc := .released, has := false }
+  { s1 with users := s1.users - 1 }
+
+/-- processing of the release event: a queued request of the behaviour process is granted -/
+def grantQueued (s : MacState) : MacState :=
+  if s.bpc = .slotWait ∧ !s.granted ∧ s.users < s.cfg.wc then { s with users := s.users + 1, granted := true, bSlot := true }
+  else s
 
 def scanCanM (cans : List Bool) (n : Nat) : List Call × Option Nat :=
   let rec go (j : Nat) (cs : List Bool) (fuel : Nat) (acc : List Call) : List Call × Option Nat :=
@@ -210,24 +235,23 @@ def scanCanM (cans : List Bool) (n : Nat) : List Call × Option Nat :=
     | f + 1, c :: cs => if c then (acc ++ [.can j true], some j) else go (j + 1) cs f (acc ++ [.can j false])
   go 0 cans n []
 
-def spawnPush (s : MacState) (w : Worker) (edge : Nat) (fa : Bool) : MacState × List Call :=
+def spawnPush (s : MacState) (i : Nat) (w : Worker) (edge : Nat) (fa : Bool) : MacState × List Call :=
   let p : MPush := { ord := s.nextProc, edge := edge, item := w.item }
-  ((({ s with pushes := s.pushes ++ [p], nextProc := s.nextProc + 1 }).setWorker { w with pc := .pushWait p.ord fa, blocked := true }),
+  ((({ s with pushes := s.pushes ++ [p], nextProc := s.nextProc + 1 }).setWorker i { w with pc := .pushWait p.ord fa, blocked := true }),
    [.spawn p.ord])
 
-def worker (s : MacState) (w : Worker) (t : Nat) (a : Ans) : MacState × List Call :=
+def worker (s : MacState) (i : Nat) (w : Worker) (t : Nat) (a : Ans) : MacState × List Call :=
   match w.pc with
-  | .start => ((s.updRep t).setWorker { w with pc := .timer }, [])
+  | .start => ((s.updRep t).setWorker i { w with pc := .timer }, [.wait w.delay])
   | .timer =>
-    let w := { w with timerAt := some t }
     match s.cfg.outPol with
     | .fa =>
       if s.cfg.blocking then
         let s1 := s.updRep t
         let w1 := { w with blocked := true }
-        let s2 := (s1.setWorker w1).updRep t
+        let s2 := (s1.setWorker i w1).updRep t
         let toks := (List.range s.cfg.nout).map (· + s2.nextTok)
-        (({ s2 with nextTok := s2.nextTok + s.cfg.nout, openToks := s2.openToks ++ toks }).setWorker { w1 with pc := .outAny toks },
+        (({ s2 with nextTok := s2.nextTok + s.cfg.nout, openToks := s2.openToks ++ toks }).setWorker i { w1 with pc := .outAny toks },
          (List.range s.cfg.nout).map (fun j => .rp j (s2.nextTok + j)))
       else
         let (calls, found) := scanCanM a.cans s.cfg.nout
@@ -235,33 +259,33 @@ def worker (s : MacState) (w : Worker) (t : Nat) (a : Ans) : MacState × List Ca
         | some j =>
           let s1 := s.updRep t
           let w1 := { w with blocked := true }
-          let s2 := (s1.setWorker w1).updRep t
-          let (s3, c) := s2.spawnPush w1 j true
+          let s2 := (s1.setWorker i w1).updRep t
+          let (s3, c) := s2.spawnPush i w1 j true
           (s3, calls ++ c)
         | none =>
           let s1 := { s with discarded := s.discarded + 1, dropped := s.dropped ++ [w.item] }
-          (s1.release w, calls)
-    | pol =>
-      let (k?, rr', c0) := selIdx pol s.rrOut s.cfg.nout a
+          (s1.release i w, calls)
+    | _ =>
+      let (k?, rr', c0) := selIdx s.cfg.outPol s.rrOut s.cfg.nout a
       match k? with
       | none => ({ s with flagged := true }, [.bad])
       | some k =>
-        if k < 0 ∨ k ≥ s.cfg.nout then (({ s with rrOut := rr' }).setWorker { w with pc := .done }, c0 ++ [.crash .assertion])
+        if k < 0 ∨ k ≥ s.cfg.nout then (({ s with rrOut := rr' }).setWorker i { w with pc := .crashed }, c0 ++ [.crash .assertion])
         else
           let j := k.toNat
           let w1 := { w with blocked := true }
-          let s1 := (({ s with rrOut := rr', outsel := s.outsel ++ [j] }).setWorker w1).updRep t
+          let s1 := (({ s with rrOut := rr', outsel := s.outsel ++ [j] }).setWorker i w1).updRep t
           if s.cfg.blocking then
-            (({ s1 with nextTok := s1.nextTok + 1, openToks := s1.openToks ++ [s1.nextTok] }).setWorker { w1 with pc := .outTok j s1.nextTok },
+            (({ s1 with nextTok := s1.nextTok + 1, openToks := s1.openToks ++ [s1.nextTok] }).setWorker i { w1 with pc := .outTok j s1.nextTok },
              c0 ++ [.rp j s1.nextTok])
           else
             match a.cans with
             | true :: _ =>
-              let (s2, c) := s1.spawnPush w1 j false
+              let (s2, c) := s1.spawnPush i w1 j false
               (s2, c0 ++ [.can j true] ++ c)
             | false :: _ =>
               let s2 := { s1 with discarded := s1.discarded + 1, dropped := s1.dropped ++ [w.item] }
-              (s2.release w1, c0 ++ [.can j false])
+              (s2.release i w1, c0 ++ [.can j false])
             | [] => ({ s with flagged := true }, [.bad])
   | .outAny toks =>
     match firstTrig toks a.trig with
@@ -271,25 +295,28 @@ def worker (s : MacState) (w : Worker) (t : Nat) (a : Ans) : MacState × List Ca
       let s1 := { s with outsel := s.outsel ++ [idx], processed := s.processed + 1, pushedItems := s.pushedItems ++ [w.item],
                          openToks := s.openToks.filter (fun x => !toks.contains x) }
       let s2 := s1.updRep t
-      (s2.release w, cancels ++ [.put idx tok w.item])
-    | none => (s.setWorker { w with pc := .done }, [.crash .value])
+      (s2.release i w, cancels ++ [.put idx tok w.item])
+    | none => (s.setWorker i { w with pc := .crashed }, [.crash .value])
   | .outTok e tok =>
     if !a.trig.contains tok then ({ s with flagged := true }, [.bad]) else
     let s1 := { s with processed := s.processed + 1, pushedItems := s.pushedItems ++ [w.item],
                        openToks := s.openToks.filter (· != tok) }
-    (s1.release w, [.put e tok w.item])
+    (s1.release i w, [.put e tok w.item])
   | .pushWait sub fa =>
     match s.pushes.find? (fun p => p.ord = sub) with
     | some p =>
-      if !p.done then ({ s with flagged := true }, [.bad]) else
+      if !p.done || w.has then ({ s with flagged := true }, [.bad]) else     -- done ⇒ the item was handed over
       let s1 := { s with processed := s.processed + 1 }
       let s2 := if fa then s1.updRep t else s1
-      (s2.release w, [])
+      (s2.release i w, [])
     | none => ({ s with flagged := true }, [.bad])
   | .released =>
-    let s1 := s.setWorker { w with pc := .done, inList := false }
+    let s0 := s.grantQueued
+    if s0.numWorkers ≥ s0.occ.length then (s0.setWorker i { w with pc := .done, inList := false }, [.crash .index]) else
+    let s1 := s0.setWorker i { w with pc := .done, inList := false }
     (((s1.occRemove t).updRep t), [])
   | .done => ({ s with flagged := true }, [.bad])
+  | .crashed => ({ s with flagged := true }, [.bad])
 
 def pushStep (s : MacState) (p : MPush) (a : Ans) : MacState × List Call :=
   match p.tok with
@@ -300,15 +327,27 @@ def pushStep (s : MacState) (p : MPush) (a : Ans) : MacState × List Call :=
   | some tok =>
     if p.done ∨ !a.trig.contains tok then ({ s with flagged := true }, [.bad])
     else
-      let p' := { p with done := true }
-      ({ s with pushes := s.pushes.map (fun q => if q.ord = p.ord then p' else q),
-                pushedItems := s.pushedItems ++ [p.item], openToks := s.openToks.filter (· != tok) },
-       [.put p.edge tok p.item])
+      -- the worker that waits for this sub-process hands its item over
+      match s.workers.findIdx? (fun w => match w.pc with | .pushWait sub _ => sub = p.ord && w.has | _ => false) with
+      | none => ({ s with flagged := true }, [.bad])
+      | some i =>
+        match s.workers[i]? with
+        | none => ({ s with flagged := true }, [.bad])
+        | some w =>
+          let p' := { p with done := true }
+          (({ s with pushes := s.pushes.map (fun (q : MPush) => if q.ord = p.ord then p' else q),
+                     pushedItems := s.pushedItems ++ [w.item], openToks := s.openToks.filter (· != tok) }).setWorker i { w with has := false },
+           [.put p.edge tok w.item])
 
-def step (s : MacState) (proc t : Nat) (a : Ans) : MacState × List Call :=
+def step (s0 : MacState) (proc t : Nat) (a : Ans) : MacState × List Call :=
+  if t < s0.now then ({ s0 with flagged := true }, [.bad]) else      -- the kernel's clock never runs backwards
+  let s := { s0 with now := t }
   if proc = 0 then s.behaviour t a
-  else match s.workers.find? (fun w => w.ord = proc) with
-    | some w => s.worker w t a
+  else match s.workers.findIdx? (fun w => w.ord = proc) with
+    | some i =>
+      match s.workers[i]? with
+      | some w => s.worker i w t a
+      | none => ({ s with flagged := true }, [.bad])
     | none =>
       match s.pushes.find? (fun p => p.ord = proc) with
       | some p => s.pushStep p a
@@ -318,11 +357,10 @@ def showRep (r : Option (Int × Int)) : String :=
   match r with | some (p, b) => s!"{p},{b}" | none => "-"
 
 def stats (s : MacState) : String :=
-  s!"proc={s.processed} disc={s.discarded} last={match s.last with | some l => toString l | none => "-"} rep={showRep s.rep} tt={s.tt} occ={s.occ} insel={s.insel} outsel={s.outsel} pd={s.pds}"
+  s!"proc={s.processed} disc={s.discarded} last={match s.last with | some l => toString l | none => "-"} rep={showRep s.rep} tt={s.tt.toList} occ={s.occ} insel={s.insel} outsel={s.outsel} pd={s.pds}"
 
 /-- items currently held by the machine: pulled, neither pushed nor dropped -/
-def held (s : MacState) : List Nat :=
-  (s.workers.filter (fun w => match w.pc with | .released | .done => false | _ => true)).map (·.item)
+def held (s : MacState) : List Nat := (s.workers.filter (·.has)).map (·.item)
 
 end MacState
 end FsVerif
